@@ -375,41 +375,16 @@ def cstep (s : CSt) : CEv → Option CSt
   | .probe v e => if cquiescent s ∧ v = s.b.target ∧ e = s.b.targetErr then some s else none
   | .quiesce B => if cquiescent s ∧ B = cpendingIds s then some s else none
 
-/-- internal events worth trying. Callback entries of hook references commute with every other
-callback entry of the same batch (they touch only their own consumer), so only the first one of the
-head batch is offered: a canonical order that loses no observable behaviour. -/
+/-- every internal event that can be enabled in `s` (`complete_refcount_consumers` in Transfer.lean):
+the internal events of the base model (callback entries of hook references included, in any order —
+the RefCount iterates over a map) and the local steps of every consumer call. No partial-order
+reduction: a REJECT is a statement about the model as it is. -/
 def callInternal (s : CSt) : List CEv :=
-  (((allInternal s.b).filter fun e => match e with
-      | .cb _ => false
-      | _ => true).map .base) ++
-  (match (headBatch s.b).find? (fun it => match it with
-      | .refcb _ false _ _ _ => true
-      | _ => false) with
-    | some it => [.base (.cb it)]
-    | none => []) ++
+  ((allInternal s.b).map .base) ++
   ((List.range s.ct.length).flatMap fun a =>
-    match getCon s a with
-    | some _ => [.base (.selfRelCS a), .snap a, .check a, .recheck a, .waitCancel a, .await a,
-                 .awaitCancel a, .goRel a]
-    | none => [])
+    [.snap a, .watch a, .check a, .recheck a, .waitCancel a, .await a, .awaitCancel a, .goRel a])
 
-/-- the watcher's `cbCancel()`, `close(doneCh)` and the end of a drained call commute with every other
-event and nothing disables them (the return of the callback makes the watcher moot and resets the
-flag): they are tried first and alone. -/
-def curgent (s : CSt) : List CEv :=
-  ((urgentCands s.b).map .base) ++
-  (((List.range s.ct.length).map fun a => CEv.watch a).filter fun e =>
-    match e with
-    | .watch a => match getCon s a with
-      | some c => match c.pc with
-        | .calling _ _ ch | .incb _ _ _ ch => c.bc.closed ch && !c.wcancel
-        | _ => false
-      | none => false
-    | _ => false)
-
-def ccands (s : CSt) : List CEv :=
-  let u := curgent s
-  if u.isEmpty then callInternal s else u
+def ccands (s : CSt) : List CEv := callInternal s
 
 def cevsOf (s : CSt) : CObs → List CEv
   | .base (.probe v e) => [.probe v e]
